@@ -50,6 +50,9 @@ type frScenario struct {
 	Conns   []frConn
 	LinkLat [][]int // per client<->server link (cyclic over links): latency pattern in ms
 	LinkSeg [][]int // per link: segment sizes (0 = whole record)
+	// HsSeg: per link (cyclic), the first bytes of either direction - the handshake and the first records behind it -
+	// arrive in exactly these segments, each consumed before the next arrives
+	HsSeg   [][]int `json:",omitempty"`
 	SidBase uint32
 	Faults  []frFault `json:",omitempty"` // connection resets injected at virtual times (C12 at layer 3)
 }
@@ -121,13 +124,21 @@ func frRunInBubble(sc frScenario) (*frResult, error) {
 		if len(sc.LinkSeg) > 0 {
 			seg = sc.LinkSeg[i%len(sc.LinkSeg)]
 		}
-		l.StartPump(vk.AtoB, lat, seg)
+		var pre, preBack []int
+		if len(sc.HsSeg) > 0 {
+			pre = sc.HsSeg[i%len(sc.HsSeg)]
+			preBack = sc.HsSeg[(i+1)%len(sc.HsSeg)]
+			if len(sc.HsSeg) == 1 && len(pre) > 1 {
+				preBack = append(append([]int(nil), pre[1:]...), pre[0])
+			}
+		}
+		l.StartPumpAfter(vk.AtoB, pre, lat, seg)
 		// reverse direction: rotate the patterns so that both directions differ
 		if len(lat) > 1 && len(seg) == len(lat) {
 			lat = append(append([]time.Duration(nil), lat[1:]...), lat[0])
 			seg = append(append([]int(nil), seg[1:]...), seg[0])
 		}
-		l.StartPump(vk.BtoA, lat, seg)
+		l.StartPumpAfter(vk.BtoA, preBack, lat, seg)
 		mu.Lock()
 		res.cliLinks = append(res.cliLinks, l)
 		mu.Unlock()
@@ -574,6 +585,23 @@ func frGenConn(rt *rapid.T, maxBytes int) frConn {
 	return c
 }
 
+// frGenHsSeg: 1-3 patterns of up to 14 exact segments of 1..600 bytes for the start of each direction of a link: the
+// cuts fall inside the ClientHello, inside the server's reply (ServerHello, ChangeCipherSpec, certificate: 165-206
+// bytes; HTTP upgrade), at the boundary between handshake and first record, and inside the first records.
+func frGenHsSeg(rt *rapid.T) [][]int {
+	var out [][]int
+	n := rapid.IntRange(1, 3).Draw(rt, "nhs")
+	for i := 0; i < n; i++ {
+		var p []int
+		m := rapid.IntRange(1, 14).Draw(rt, "nseg")
+		for k := 0; k < m; k++ {
+			p = append(p, rapid.SampledFrom([]int{1, 2, 4, 5, 6, 11, 33, 60, 97, 127, 128, 129, 133, 134, 160, 200, 333, 517, 600}).Draw(rt, "hseg"))
+		}
+		out = append(out, p)
+	}
+	return out
+}
+
 func frGen(maxConns int, directOnly bool) func(rt *rapid.T) frScenario {
 	return func(rt *rapid.T) frScenario {
 		var sc frScenario
@@ -607,6 +635,9 @@ func frGen(maxConns int, directOnly bool) func(rt *rapid.T) frScenario {
 			}
 			sc.LinkLat = append(sc.LinkLat, la)
 			sc.LinkSeg = append(sc.LinkSeg, se)
+		}
+		if rapid.IntRange(0, 2).Draw(rt, "hsseg") == 0 {
+			sc.HsSeg = frGenHsSeg(rt)
 		}
 		return sc
 	}
@@ -728,6 +759,31 @@ func TestVerif_C01_FullRig(t *testing.T) {
 			res.Labels = append(res.Labels, "several-streams-over-several-connections")
 		}
 		return res, err
+	}))
+}
+
+// C05 at layer 3: the handshake and the records behind it share one byte stream. Whatever the segmentation of the
+// handshake messages, the first record of either side must be taken from where the handshake ended - a handshake
+// reader that consumes "what has arrived" instead of its messages shifts every later record of the connection.
+func TestVerif_C05_HandshakeThenRecords(t *testing.T) {
+	gen := func(rt *rapid.T) frScenario {
+		sc := frGen(3, false)(rt)
+		if rapid.IntRange(0, 1).Draw(rt, "ws") == 0 {
+			sc.Client.Transport = "cdn"
+		}
+		sc.Client.NumConn = rapid.IntRange(0, 3).Draw(rt, "nc")
+		sc.HsSeg = frGenHsSeg(rt)
+		for i := range sc.Conns {
+			sc.Conns[i].StartMs = 0
+		}
+		return sc
+	}
+	vk.Run(t, "C05", "HandshakeThenRecords", gen, frRun(t, func(fr *frResult) (vk.Result, error) {
+		_, _, err := frContentOracle(fr)
+		if err != nil && fr.peerIdleClose {
+			return vk.Result{Labels: []string{"not-judged:server-idle-timeout-closed-the-session"}}, nil
+		}
+		return vk.Result{NonTrivial: true, Labels: []string{"transport=" + fr.sc.Client.Transport}}, err
 	}))
 }
 
